@@ -16,7 +16,7 @@ ID = "C15"
 LEVEL = "exploration"
 TIERS = {
     "quick": {"shards": 128, "examples": 24, "det_shards": 2},
-    "thorough": {"shards": 1024, "examples": 60, "det_shards": 8},
+    "thorough": {"shards": 2048, "examples": 60, "det_shards": 8},
 }
 RULE = ("case = (world, variant) where a world is a generated tree + pattern set + placement and a variant is one "
         "listing schedule (seeded key and/or explicit per-directory permutation) with one assignment of each pattern "
